@@ -6,5 +6,6 @@ pub mod e2;
 pub mod enc;
 pub mod gbat;
 pub mod guard;
+pub mod machines;
 pub mod refmodel;
 pub mod report;
